@@ -36,6 +36,7 @@ RULE = (
     "document declares >= 1 entity; distinct by (entry point, entity kind, depth, used/declared, encoding)."
     ' A quarter of the documents are parsed in a worker thread; entity names that are case variants of the predefined names; a second process variant with debug logging on; peak memory must stay below 1 MiB + 16 x input.'
 )
+RULE += ' Round 10: an undeclared parameter-entity reference in front of the entity declarations (open finding).'
 ASSUMPTIONS = [
     "a DOCTYPE without entity declarations (external subset reference, ELEMENT/ATTLIST declarations) is a document 'without entity "
     "declarations' and must parse as usual",
